@@ -4,6 +4,7 @@
 #pragma once
 #include <string>
 #include <type_traits>
+#include <typeinfo>
 #include <vector>
 #include "decoder.h"
 #include "operand.h"
@@ -44,11 +45,16 @@ struct Rec {
 
     template <typename T>
     void one(const T& t) {
-        u32 tag = (u32)(sizeof(T) * 131 + std::is_enum_v<T> * 7 + std::is_same_v<T, bool> * 3);
+        // the operand TYPE is part of the form: add(Bx,Ax) and add(Px,Bx) are different overloads
+        static const u32 tag = [] {
+            u32 h = 2166136261u;
+            for (const char* p = typeid(T).name(); *p; ++p)
+                h = (h ^ (unsigned char)*p) * 16777619u;
+            return h;
+        }();
         if constexpr (std::is_enum_v<T> || std::is_integral_v<T>) {
             form.ops.emplace_back(tag, (u64)t);
         } else {
-            tag = tag * 31 + T::Bits;
             form.ops.emplace_back(tag, OperandRaw<T::Bits>(t));
         }
     }
